@@ -127,7 +127,7 @@ impl RefHost {
     }
 
     pub fn path(&self, id: FileId) -> String {
-        self.fs.path_of(id).to_string_lossy().into_owned()
+        norm_path(&self.fs.path_of(id).to_string_lossy())
     }
 
     pub fn text_of(&self, id: FileId) -> &str {
@@ -257,6 +257,15 @@ impl RefHost {
         out.sort();
         Some(out)
     }
+}
+
+/// "/w/./b.td" and "/w/b.td" are the same file (URLs drop "." segments anyway).
+pub fn norm_path(p: &str) -> String {
+    let mut s = p.to_string();
+    while let Some(i) = s.find("/./") {
+        s.replace_range(i..i + 2, "");
+    }
+    s
 }
 
 // ------------------------------------------------------------------ wire projections
